@@ -275,7 +275,7 @@ def gen_call(rng, fam=None, names=NAMES):
 
 def corrupt(rng, call):
     d = {k: (list(v) if isinstance(v, list) else (dict(v) if isinstance(v, dict) else v)) for k, v in call.items()}
-    c = rng.choice(["dim", "dropaxis", "dupaxis", "bracket", "kwdel", "kwbad", "tensor", "char", "oob"])
+    c = rng.choice(["dim", "dropaxis", "dupaxis", "bracket", "kwdel", "kwbad", "kwfrac", "kwneg", "tensor", "char", "oob"])
     desc = d["desc"]
     xs = d["tensors"]
     kw = d["kw"]
@@ -299,6 +299,9 @@ def corrupt(rng, call):
     elif c == "kwbad" and kw and all(isinstance(v, int) for v in kw.values()):
         k = rng.choice(sorted(kw))
         kw[k] = kw[k] + 1
+    elif c in ("kwfrac", "kwneg") and any(isinstance(v, int) and not isinstance(v, bool) for v in kw.values()):
+        k = rng.choice(sorted(k for k, v in kw.items() if isinstance(v, int) and not isinstance(v, bool)))
+        kw[k] = kw[k] + 0.5 if c == "kwfrac" else -kw[k] - (1 if kw[k] == 0 else 0)
     elif c == "tensor" and len(xs) > 1:
         xs.pop()
     elif c == "oob" and d["op"] in ("get_at", "set_at", "add_at", "subtract_at") and len(xs) > 1 and xs[1]["data"]:
@@ -327,10 +330,15 @@ def gen_corpus(rng, n, pbad=0.25, pgraph=0.15, names=NAMES):
     out = []
     while len(out) < n:
         c = gen_call(rng, names=names)
+        if c.get("_axes") and rng.random() < 0.35:  # redundant (consistent) size keywords
+            for n2 in rng.sample(sorted(c["_axes"]), min(len(c["_axes"]), rng.randint(1, 3))):
+                c["kw"].setdefault(n2, c["_axes"][n2])
         if rng.random() < 0.15:
             c = anonymise(rng, c)
         if rng.random() < pbad:
             c = corrupt(rng, c)
+            if rng.random() < 0.35:  # two independent problems in one call: which one is reported must not depend on iteration order
+                c = corrupt(rng, c)
         if rng.random() < pgraph and c["op"] not in ("solve_axes", "solve_shapes", "matches"):
             c["graph"] = True
         out.append(c)
